@@ -40,6 +40,10 @@ Tags(ev) ==
              \cup (IF ev.from_str = want THEN {} ELSE {"from_str"})
              \cup (IF ev.serde = (IF i = 0 THEN a.name_text[1] ELSE a.name_text[i]) THEN {} ELSE {"serde-decode"})
              \cup (IF (i # 0 /\ ev.cookie = want) \/ (i = 0 /\ ev.cookie \in {"err", a.name_text[1]}) THEN {} ELSE {"cookie-decode"})
+        [] ev.op = "forms_min" ->
+             (IF IdxOfText(a, ev.locale) # 0 THEN {} ELSE {"as_str-not-a-name"})
+             \cup (IF ev.display = ev.locale THEN {} ELSE {"display"})
+             \cup (IF ev.from_str = ev.locale THEN {} ELSE {"from_str"})
         [] ev.op = "scoped_forms" ->
              (IF ev.as_str = ev.locale /\ ev.display = ev.locale /\ ev.serde = Quoted(ev.locale) THEN {} ELSE {"scoped-forms"})
         [] ev.op = "scoped_parse" ->
